@@ -906,7 +906,8 @@ def configure_logging(config: Config) -> None:
 
     try:
         config.log.parent.mkdir(parents=True, exist_ok=True)
-    except OSError:
+    except (OSError, ValueError):
+        # ValueError: path unusable for the OS (e.g. embedded NUL)
         _log_config = None
         _log_disabled = True
         return
@@ -941,5 +942,5 @@ def log_decision(
     try:
         with open(_log_config.path, "a") as f:
             f.write(json.dumps(entry) + "\n")
-    except OSError:
+    except (OSError, ValueError):
         _log_disabled = True
